@@ -48,6 +48,22 @@ static int nonNullAccessors(const AnyCellmlElementPtr &item)
            + int(item->units() != nullptr) + int(item->variable() != nullptr);
 }
 
+bool analysisFailed(const AnalyserModelPtr &am)
+{
+    if (am == nullptr) {
+        return false;
+    }
+    switch (am->type()) {
+    case AnalyserModel::Type::INVALID:
+    case AnalyserModel::Type::UNDERCONSTRAINED:
+    case AnalyserModel::Type::OVERCONSTRAINED:
+    case AnalyserModel::Type::UNSUITABLY_CONSTRAINED:
+        return true;
+    default:
+        return false;
+    }
+}
+
 void checkLogger(Ctx &ctx, const LoggerPtr &logger, const std::string &service, const std::string &what, bool failed)
 {
     ctx.count("c15_logger_checks");
